@@ -142,8 +142,15 @@ type c17Info struct {
 
 func (i *c17Info) Name() string   { return i.name }
 func (i *c17Info) Addr() net.Addr { return i.addr }
+// c17EndlessDials stops a recovery chain that does not terminate (every dial is
+// refused, so a correct chain ends after at most one attempt per listed server).
+type c17EndlessDials struct{}
+
 func (i *c17Info) Dial(context.Context, Player) (net.Conn, error) {
 	*i.dials = append(*i.dials, i.name)
+	if len(*i.dials) > 64 {
+		panic(c17EndlessDials{})
+	}
 	return nil, errors.New("c17: backend refuses connections")
 }
 
@@ -577,12 +584,26 @@ func c17RunFlow(c c17FlowCase) verifkit.Result {
 
 	// expected chain: every dial is refused, so each chosen server becomes the next failed one
 	reason := &component.Text{Content: c17Marker}
-	if c.ByError {
-		labels = append(labels, "by-connection-error")
-		f.player.handleConnectionErr(f.rs(failed), errors.New("c17: connection reset"), true)
-	} else {
-		labels = append(labels, "by-disconnect-packet")
-		f.player.handleDisconnectWithReason(f.rs(failed), reason, true)
+	endless := func() (endless bool) {
+		defer func() {
+			if p := recover(); p != nil {
+				if _, ok := p.(c17EndlessDials); !ok {
+					panic(p)
+				}
+				endless = true
+			}
+		}()
+		if c.ByError {
+			labels = append(labels, "by-connection-error")
+			f.player.handleConnectionErr(f.rs(failed), errors.New("c17: connection reset"), true)
+		} else {
+			labels = append(labels, "by-disconnect-packet")
+			f.player.handleDisconnectWithReason(f.rs(failed), reason, true)
+		}
+		return false
+	}()
+	if endless {
+		return verifkit.Fail("flow:endless", "the recovery chain does not terminate although every backend refuses the dial: %d dial attempts so far, %v ...", len(f.dials), f.dials[:min(12, len(f.dials))])
 	}
 
 	// judge the dial attempts against the model, step by step
